@@ -226,6 +226,102 @@ def gen_mapping(rng):
     return {"kind": "mapping", "style": kind, "adds": adds, "queries": queries}
 
 
+DISTRIB_TYPES = ["tarball", "tarball", "builder", "pacman", "eupspkg"]
+
+
+def gen_distwrite(rng):
+    """A manifest with MIXED FLAVORS (generic dependencies among binaries of the repository's flavor) handed to
+    Repository.create(<distrib type>, top, version, nodepend=True, manifest=FILE): the distrib type's writeManifest deploys
+    it into a scratch server directory (Repository.create always passes flavor=self.flavor by keyword) and it is read back."""
+    flavor = rng.choice(["Linux", "Linux64", "DarwinX86"])
+    deps = []
+    for nm in sorted(set(n for n in (gen_name(rng) for _ in range(rng.randint(1, 7))) if re.match(r"^[A-Za-z][A-Za-z0-9_]*$", n) and n != "top")):
+        v = rng.choice(["1.0", "2.1", "3.0+1"])
+        deps.append({"product": nm, "version": v, "flavor": rng.choice([flavor, flavor, "generic", "generic", "Linux64"]),
+                     "tablefile": rng.choice(["none", "%s.table" % nm]), "instDir": rng.choice(["none", "%s/%s/%s" % (flavor, nm, v)]),
+                     "distId": "%s-%s.tar.gz" % (nm, v), "isOpt": rng.random() < 0.15, "recurse": False, "extra": []})
+    if rng.random() < 0.5:
+        rng.shuffle(deps)
+    top = {"product": "top", "version": "1.0", "flavor": flavor, "tablefile": "none", "instDir": "none", "distId": None,
+           "isOpt": False, "recurse": False, "extra": []}
+    return {"kind": "distwrite", "type": rng.choice(DISTRIB_TYPES), "flavor": flavor, "deps": deps + [top]}
+
+
+def _distwrite_child(c):
+    import importlib
+    from eups.distrib import server
+    from eups.distrib.Repository import Repository
+    root = common.scratch("c18dw")
+    try:
+        stacks, _ = common.mkstacks(root, default_product=True)
+        os.environ["EUPS_DIR"] = common.REPO
+        os.dup2(os.open(os.devnull, os.O_WRONLY), 2)        # the packagers run shell commands that chat on fd 2
+        E = common.new_eups(flavor=c["flavor"])
+        d = common.mkprod(stacks[0], "top", "1.0", "", flavor=c["flavor"])
+        E.declare("top", "1.0", d, tag="current")
+        E = common.new_eups(flavor=c["flavor"])
+        null = open(os.devnull, "w")
+        manpath = os.path.join(root, "in.manifest")
+        m = server.Manifest("top", "1.0", E, verbosity=-1, log=null)
+        for x in c["deps"]:
+            m.addDependency(x["product"], x["version"], x["flavor"], x["tablefile"], x["instDir"], x["distId"], x["isOpt"])
+        m.write(manpath, noOptional=False)
+        pkgroot = os.path.join(root, "server")
+        os.makedirs(pkgroot)
+        if c["type"] == "eupspkg":
+            # creating an eupspkg package needs an installed eups (lib/eupspkg.sh, bin/setups.sh): only its package is stubbed
+            ep = importlib.import_module("eups.distrib.eupspkg")
+            ep.Distrib.createPackage = lambda self, serverDir, product, version, flavor=None, overwrite=False: \
+                "eupspkg:%s-%s.eupspkg" % (product, version)
+        repo = Repository(E, pkgroot, flavor=c["flavor"], verbosity=-1, log=null)
+        import contextlib, io
+        try:
+            with contextlib.redirect_stderr(io.StringIO()), contextlib.redirect_stdout(io.StringIO()):
+                repo.create(c["type"], "top", "1.0", nodepend=True, manifest=manpath, options={"allowIncomplete": True})
+        except Exception as e:  # noqa
+            return {"error": "create:" + type(e).__name__ + ":" + str(e)[:200]}
+        mans = [os.path.join(dp, f) for dp, _, fn in os.walk(pkgroot) for f in fn if f.endswith(".manifest")]
+        if len(mans) != 1:
+            return {"error": "manifests deployed: %r" % [os.path.relpath(x, pkgroot) for x in mans]}
+        try:
+            r = server.Manifest.fromFile(mans[0], E, verbosity=-1)
+        except Exception as e:  # noqa
+            return {"error": "read:" + exc_name(e)}
+        return {"deps": [dep_dict(x) for x in r.getProducts()], "path": os.path.relpath(mans[0], pkgroot).replace(root, "$S")}
+    finally:
+        common.rmtree(root)
+
+
+def impl_distwrite(c):
+    r = common.in_child(_distwrite_child, c, _timeout=180)
+    return r[1] if r[0] == "ok" else {"error": "CHILD:" + str(r[1:3])}
+
+
+def oracle_distwrite(c, io_):
+    """Same products in the same order with the same version, directory and distribution id (the product being packaged gets
+    the id of the package just created); table files are the deployed copies' names; and every entry keeps ITS OWN flavor
+    when the tarball type writes (it forces flavor=None).  The other types forward Repository.create's flavor= to
+    Manifest.write, whose documented effect is to set every entry's flavor to it - reading adopted, see the notes."""
+    if "deps" not in io_:
+        yield ("distrib_manifest_reads_back", None, "%s: %s" % (c["type"], io_.get("error")))
+        return
+    got = io_["deps"]
+    if [(x["product"], x["version"]) for x in got] != [(x["product"], x["version"]) for x in c["deps"]]:
+        yield ("manifest_same_order", None, "%s: written %r, read back %r" % (c["type"], [x["product"] for x in c["deps"]], [x["product"] for x in got]))
+        return
+    for w, g in zip(c["deps"], got):
+        want_fl = w["flavor"] if c["type"] == "tarball" else c["flavor"]
+        if g["flavor"] != want_fl:
+            yield ("manifest_flavor", None, "%s writer: %s %s written with flavor %s, read back with %s" %
+                   (c["type"], w["product"], w["version"], w["flavor"], g["flavor"]))
+        want_tf = "none" if w["tablefile"] == "none" else "%s-%s.table" % (w["product"], w["version"])
+        if g["tablefile"] != want_tf or g["instDir"] != w["instDir"]:
+            yield ("manifest_table_and_directory", None, "%s: %s: table %r dir %r, expected %r %r" %
+                   (c["type"], w["product"], g["tablefile"], g["instDir"], want_tf, w["instDir"]))
+        if (w["distId"] is not None and g["distId"] != w["distId"]) or (w["distId"] is None and not g["distId"]):
+            yield ("manifest_distid", None, "%s: %s: distId %r read back as %r" % (c["type"], w["product"], w["distId"], g["distId"]))
+
+
 def gen_createdeps(rng):
     """A small product graph on a real stack (p0 requires a random subset of the later products, some optionally, some
     optional ones missing) for Distrib._createDeps: the dependency manifest must be in install order."""
@@ -1107,7 +1203,7 @@ def impl_remap(c, E=None):
 
 
 def impl_case(c):
-    return {"manifest": impl_manifest, "taglist": impl_taglist, "mapping": impl_mapping, "mapseq": impl_mapseq, "tagseq": impl_tagseq, "manseq": impl_manseq, "srvfile": impl_srvfile, "createdeps": impl_createdeps, "remap": impl_remap,
+    return {"manifest": impl_manifest, "taglist": impl_taglist, "mapping": impl_mapping, "mapseq": impl_mapseq, "tagseq": impl_tagseq, "manseq": impl_manseq, "srvfile": impl_srvfile, "createdeps": impl_createdeps, "distwrite": impl_distwrite, "remap": impl_remap,
             "server": impl_server}[c["kind"]](c)
 
 
@@ -1381,7 +1477,7 @@ def oracle_server(c, io_):
 
 
 ORACLES = {"manifest": oracle_manifest, "taglist": oracle_taglist, "mapping": oracle_mapping, "remap": oracle_remap,
-           "server": oracle_server, "mapseq": oracle_mapseq, "tagseq": oracle_tagseq, "manseq": oracle_manseq, "srvfile": oracle_srvfile, "createdeps": oracle_createdeps}
+           "server": oracle_server, "mapseq": oracle_mapseq, "tagseq": oracle_tagseq, "manseq": oracle_manseq, "srvfile": oracle_srvfile, "createdeps": oracle_createdeps, "distwrite": oracle_distwrite}
 
 
 # ---- model -----------------------------------------------------------------------------------------
@@ -1406,6 +1502,14 @@ def model_requests(c, io_):
         return [{"m": "c18", "op": "mapping", "adds": c["adds"], "queries": c["queries"]}]
     if k == "mapseq":
         return [{"m": "c18", "op": "mapseq", "ops": c["ops"]}]
+    if k == "distwrite":
+        top_id = None
+        for x in io_.get("deps", []):
+            if x["product"] == "top":
+                top_id = x["distId"]
+        deps = [dict(x, distId=top_id) if x["product"] == "top" else x for x in c["deps"]]
+        return [{"m": "c18", "op": "dwrite", "product": "top", "version": "1.0", "deps": deps, "flavor": c["flavor"],
+                 "native": c["flavor"], "writer": "tarball" if c["type"] == "tarball" else "default"}]
     if k == "createdeps":
         return [{"m": "c18", "op": "createdeps", "top": c["products"][0]["name"], "topVersion": "1", "deps": io_.get("deps", [])}]
     if k == "srvfile":
@@ -1438,6 +1542,9 @@ def model_output(c, io_, answers):
         return answers[0]
     if k == "createdeps":
         return dict(answers[0], deps=io_.get("deps", []))
+    if k == "distwrite":
+        a = answers[0]
+        return {"deps": a["deps"]} if "deps" in a else {"error": a.get("error")}
     if k == "server":
         return {"answers": answers[0]["answers"]}
     a = answers[0]
@@ -1454,6 +1561,8 @@ def impl_view(c, io_):
         return {x: io_[x] for x in io_ if x != "raw"}
     if k == "server":
         return {"answers": io_["answers"]}
+    if k == "distwrite":
+        return {"deps": io_["deps"]} if "deps" in io_ else {"error": io_.get("error")}
     if k == "remap" and "error" in io_:
         return {"error": "parse"} if io_["error"] in ("EXC:AttributeError",) else io_
     return io_
@@ -1465,7 +1574,9 @@ NW = 4
 
 MIRRORS = [("python/eups/distrib/server.py", "*"), ("python/eups/distrib/Distrib.py", "Distrib.writeManifest"),
            ("python/eups/distrib/Distrib.py", "DefaultDistrib.writeTaggedRelease"),
-           ("python/eups/distrib/Distrib.py", "Distrib.createDependencies"), ("python/eups/distrib/Distrib.py", "Distrib._createDeps")]
+           ("python/eups/distrib/Distrib.py", "Distrib.createDependencies"), ("python/eups/distrib/Distrib.py", "Distrib._createDeps"),
+           ("python/eups/distrib/Distrib.py", "DefaultDistrib.writeManifest"), ("python/eups/distrib/Distrib.py", "DefaultDistrib.updateDependencies"),
+           ("python/eups/distrib/tarball.py", "Distrib.writeManifest"), ("python/eups/distrib/Repository.py", "Repository.create")]
 
 
 def nontrivial(c, io_):
@@ -1483,6 +1594,8 @@ def nontrivial(c, io_):
         return False
     if k == "mapping":
         return any(list(r) != q[:2] for q, r in zip(c["queries"], io_.get("applied", [])))
+    if k == "distwrite":
+        return len(c["deps"]) > 1
     if k == "createdeps":
         return len(io_.get("order", [])) > 1
     if k == "srvfile":
@@ -1529,6 +1642,10 @@ def evaluate(ctx, cases):
                 ctx.hist("taglist:odd-tag")
             if "readTag" in c:
                 ctx.hist("taglist:reader-expects-another-tag")
+        elif kind == "distwrite":
+            ctx.hist("distwrite:type=%s" % c["type"])
+            if len(set(x["flavor"] for x in c["deps"])) > 1 and "deps" in io_:
+                ctx.hist("distwrite:mixed-flavors-through-%s-writer" % ("tarball" if c["type"] == "tarball" else "default"))
         elif kind == "createdeps":
             if len(io_.get("order", [])) >= 3:
                 ctx.hist("createdeps:three-or-more-products-listed")
@@ -1611,7 +1728,7 @@ def corpus_cases():
 
 
 GEN = {"manifest": gen_manifest, "taglist": gen_taglist, "mapping": gen_mapping, "remap": gen_remap, "server": gen_server,
-       "mapseq": gen_mapseq, "tagseq": gen_tagseq, "manseq": gen_manseq, "srvfile": gen_srvfile, "createdeps": gen_createdeps}
+       "mapseq": gen_mapseq, "tagseq": gen_tagseq, "manseq": gen_manseq, "srvfile": gen_srvfile, "createdeps": gen_createdeps, "distwrite": gen_distwrite}
 
 
 def enum_mappings():
@@ -1632,8 +1749,8 @@ def enum_mappings():
 
 
 QUICK = [("manifest", 2000, 500), ("taglist", 1000, 500), ("mapping", 1200, 400), ("mapseq", 1000, 500), ("tagseq", 800, 400),
-         ("manseq", 600, 300), ("srvfile", 600, 300), ("createdeps", 32, 16), ("remap", 1300, 450), ("server", 800, 400)]
-THOROUGH = [("manifest", 60000, 600), ("taglist", 30000, 600), ("mapping", 40000, 600), ("mapseq", 30000, 600), ("tagseq", 30000, 600), ("manseq", 30000, 600), ("srvfile", 20000, 600), ("createdeps", 2000, 48),
+         ("manseq", 600, 300), ("srvfile", 600, 300), ("createdeps", 32, 16), ("distwrite", 60, 20), ("remap", 1300, 450), ("server", 800, 400)]
+THOROUGH = [("manifest", 60000, 600), ("taglist", 30000, 600), ("mapping", 40000, 600), ("mapseq", 30000, 600), ("tagseq", 30000, 600), ("manseq", 30000, 600), ("srvfile", 20000, 600), ("createdeps", 2000, 48), ("distwrite", 2000, 40),
             ("remap", 40000, 600), ("server", 25000, 600)]
 
 
@@ -1667,6 +1784,10 @@ def check_floors(ctx):
         raise common.InfraError("degenerate distribution: manifest sequences: %d reorderings, %d reads into the live manifest, %d "
                                 "getDependency hits" % (h.get("manseq:order-changed", 0), h.get("manseq:read-into-live-manifest", 0),
                                                         h.get("manseq:getdep-found", 0)))
+    if h.get("distwrite:mixed-flavors-through-tarball-writer", 0) < 8 or h.get("distwrite:mixed-flavors-through-default-writer", 0) < 8:
+        raise common.InfraError("degenerate distribution: mixed-flavor manifests through Repository.create: %d by the tarball writer, "
+                                "%d by the writers that forward flavor=" % (h.get("distwrite:mixed-flavors-through-tarball-writer", 0),
+                                                                           h.get("distwrite:mixed-flavors-through-default-writer", 0)))
     if h.get("createdeps:three-or-more-products-listed", 0) < 6:
         raise common.InfraError("degenerate distribution: %d dependency manifests with three or more products"
                                 % h.get("createdeps:three-or-more-products-listed", 0))
